@@ -259,7 +259,11 @@ def run_C12(ctx, E):
     coverage_gate(ctx, E, "Booth_MC", "Booth_MC_quick.cfg")
     for suffix in ("", "3", "4"):
         stage_mc_replay(ctx, E, "mc%s" % (suffix or "2"), "C12_MC", "C12_MC_%s%s.cfg" % (ctx.tier, suffix))
-    stage_record_trace(ctx, E, "rot", "C12_Trace", "C12_Trace.cfg", heap="8g")
+    drv = ctx.drv
+    if ctx.tier == "thorough":   # the rotations of a group are canonicalised concurrently: under the race detector
+        drv = E.build_driver(ctx.work, race=True)
+    stage_record_trace(ctx, E, "rot", "C12_Trace", "C12_Trace.cfg", heap="8g", drv=drv,
+                       env={"GORACE": "exitcode=66 halt_on_error=1"})
 
 
 # ------------------------------------------------------------------ C11
@@ -275,7 +279,11 @@ def run_C04(ctx, E):
     ctx.exhaustive = True
     for m in ("dna", "rna", "iupac", "nucfull"):
         stage_mc_replay(ctx, E, m, "C04_MC", "C04_MC_%s_%s.cfg" % (ctx.tier, m))
-    stage_record_trace(ctx, E, "meta", "C04_Trace", "C04_Trace.cfg", heap="8g")
+    drv = ctx.drv
+    if ctx.tier == "thorough":   # overlapping calls of a pure function: under the race detector
+        drv = E.build_driver(ctx.work, race=True)
+    stage_record_trace(ctx, E, "meta", "C04_Trace", "C04_Trace.cfg", heap="8g", drv=drv,
+                       env={"GORACE": "exitcode=66 halt_on_error=1"})
 
 
 def run_C05(ctx, E):
